@@ -46,7 +46,9 @@ def run(tier, mode):
     dist = {'tracts': 0, 'error_trs': 0, 'multi': 0}
     n = 450 if tier == 'quick' else 7000
     pool = list(TRICKY) + ['T154N-R97W Sec 0: NE/4', 'T154N-R97W Sections 0 - 2: NE/4', 'T154N-R97W Sec 00: NE/4, Sec 100: W/2', 'T0N-R0E Sec 1: ALL',
-                           'T154N-R97W Sections 1 - 3: NE/4, Sec 5: S/2', 'Sections 1 - 3 and 9: NE/4, Sec 5: S/2, T154N-R97W']
+                           'T154N-R97W Sections 1 - 3: NE/4, Sec 5: S/2', 'Sections 1 - 3 and 9: NE/4, Sec 5: S/2, T154N-R97W',
+                           # characters that do not survive an encode/decode round trip (lone surrogates, as left by errors='surrogateescape') and astral ones
+                           'T154N-R97W Sec 14: NE/4 \udc96 Sec 15: W/2', 'NE/4 of Section 14, T154N-R97W \ud83d', 'T154N-R97W Sec 14: NE/4 \U0001F600 Sec 15: W/2']
     for i in range(n):
         k = r.random()
         if i < len(pool):
